@@ -262,7 +262,9 @@ def _accepts_scalar(k, p, v):
         if not isinstance(v, float):
             return False
         if "value" in p:
-            if "precision" in p:
+            if v != v and p["value"] != p["value"]:
+                pass        # a schema pinned to nan accepts nan (the one float unequal to itself)
+            elif "precision" in p:
                 s = 10 ** p["precision"]
                 a, b = v * s, p["value"] * s
                 if _finite(a) and _finite(b):
